@@ -133,21 +133,19 @@ func (b *Builder) AddRemoteSource(ctx context.Context, addr sourceaddrs.RemoteSo
 	}
 
 	af := remoteArtifact{addr, depFinder}
-	b.mu.Lock()
-	if _, exists := b.analyzed[af]; exists {
-		// Nothing further to do with this one, then.
-		// NOTE: This early check is just an optimization; b.resolvePending
-		// will re-check whether each queued item has already been analyzed
-		// anyway, so this just avoids growing b.pendingRemote if possible,
-		// since once something has become analyzed it never becomes
-		// "un-analyzed" again.
-		b.mu.Unlock()
-		return nil
-	}
-	b.pendingRemote = append(b.pendingRemote, af)
-	b.mu.Unlock()
-
-	return b.resolvePending(ctx)
+	return b.resolvePending(ctx, func() bool {
+		if _, exists := b.analyzed[af]; exists {
+			// Nothing further to do with this one, then.
+			// NOTE: This early check is just an optimization; b.resolvePending
+			// will re-check whether each queued item has already been analyzed
+			// anyway, so this just avoids growing b.pendingRemote if possible,
+			// since once something has become analyzed it never becomes
+			// "un-analyzed" again.
+			return false
+		}
+		b.pendingRemote = append(b.pendingRemote, af)
+		return true
+	})
 }
 
 // AddRegistrySource incorporates the registry metadata for the given address
@@ -168,11 +166,10 @@ func (b *Builder) AddRegistrySource(ctx context.Context, addr sourceaddrs.Regist
 		panic("AddRegistrySource on closed sourcebundle.Builder")
 	}
 
-	b.mu.Lock()
-	b.pendingRegistry = append(b.pendingRegistry, registryArtifact{addr, allowedVersions, depFinder})
-	b.mu.Unlock()
-
-	return b.resolvePending(ctx)
+	return b.resolvePending(ctx, func() bool {
+		b.pendingRegistry = append(b.pendingRegistry, registryArtifact{addr, allowedVersions, depFinder})
+		return true
+	})
 }
 
 // AddFinalRegistrySource is a variant of [Builder.AddRegistrySource] which
@@ -228,7 +225,14 @@ func (b *Builder) Close() (*Bundle, error) {
 // resolvePending depletes the queues of pending source artifacts, making sure
 // that everything required is present in the bundle directory, both directly
 // and indirectly.
-func (b *Builder) resolvePending(ctx context.Context) (diags Diagnostics) {
+//
+// The caller's own artifact is queued by the given function inside the same
+// critical section, after the builder has been found usable: queued any
+// earlier it could be picked up by another caller's call - under that caller's
+// context, with its diagnostics going to that caller - and a call that finds
+// its artifact analysed already would report success on a builder that has
+// failed in the meantime. The function reports whether there is anything to do.
+func (b *Builder) resolvePending(ctx context.Context, enqueue func() bool) (diags Diagnostics) {
 	b.mu.Lock()
 	defer func() {
 		// If anything we do here generates any errors then the bundle
@@ -245,6 +249,9 @@ func (b *Builder) resolvePending(ctx context.Context) (diags Diagnostics) {
 	// closed, while this call was waiting for the lock.
 	if b.targetDir == "" {
 		panic("use of failed or closed sourcebundle.Builder")
+	}
+	if !enqueue() {
+		return nil
 	}
 
 	trace := buildTraceFromContext(ctx)
